@@ -136,6 +136,23 @@ func program(decls []decl, stmts ...node) node {
 	return node{text, sx + ")"}
 }
 
+// longProgram: n statements, each one different, so that a statement lost, repeated or moved shows
+func longProgram(n int) node {
+	usd := nAsset("USD")
+	var stmts []node
+	for i := 0; i < n; i++ {
+		switch i % 3 {
+		case 0:
+			stmts = append(stmts, stSend(sentLit(nMon(usd, nNum(i))), sAcc(nAcc("a")), dAcc(nAcc("d"))))
+		case 1:
+			stmts = append(stmts, stCall("set_tx_meta", nStr("k"), nNum(i)))
+		default:
+			stmts = append(stmts, stSave(sentLit(nMon(usd, nNum(i))), nAcc("a")))
+		}
+	}
+	return program(nil, stmts...)
+}
+
 func structurePrograms() []node {
 	usd := nAsset("USD")
 	m := func(n int) node { return nMon(usd, nNum(n)) }
@@ -186,6 +203,8 @@ func structurePrograms() []node {
 		program([]decl{{"monetary", "m", nil}, {"account", "acc", nil}}, stSave(sentLit(m(10)), nAcc("a")), stSave(sentAll(usd), nVar("acc")), stSave(sentLit(nVar("m")), nAcc("b"))),
 		// statement order
 		program(nil, stSend(sentLit(m(1)), sAcc(nAcc("a")), d), stCall("set_tx_meta", nStr("k"), nNum(1)), stSave(sentLit(m(2)), nAcc("a")), stSend(sentAll(usd), sAcc(nAcc("b")), d), stCall("set_tx_meta", nStr("j"), nNum(2))),
+		// length: scripts far longer than any in the suite (every statement present, in order, with its ranges)
+		longProgram(70), longProgram(130), longProgram(400),
 	}
 }
 
